@@ -69,6 +69,7 @@ def make_registry():
     reg = registry()
     tm.install(reg)
     cm.install(reg)
+    cm.install_crop(reg)
     for c in CONTRACTS:
         reg.add_contract(c)
     for c in (C_CURAB, C_CURROT):   # verified on their own AND interpreted inline inside reconstruct (its frame clause sees their effects)
@@ -589,6 +590,39 @@ def fam_getter():
 def _signed(idx, n):
     """Signed frequency index of corner-centred position idx on an axis of length n (np.fft.fftfreq convention)."""
     return idx if idx < (n + 1) // 2 else idx - n
+
+
+def rt_cropfn(inp):
+    """_crop_corner_centered_mask on the real function: the set of (signed row frequency, signed column frequency) of the True pixels is unchanged."""
+    import numpy as np
+    import torch
+    from quantem.diffractive_imaging.direct_ptycho_utils import _crop_corner_centered_mask
+
+    H, W = inp["det"]
+    mask = np.zeros((H, W), dtype=bool)
+    for i, j in inp["pixels"]:
+        mask[i % H, j % W] = True
+    try:
+        out = _crop_corner_centered_mask(torch.tensor(mask), inp.get("pad", 1)).numpy()
+    except Exception as e:  # noqa: BLE001
+        return dict(violated=True, observed=f"raised {type(e).__name__}: {e}", expected="a cropped mask")
+    want = sorted((_signed(i, H), _signed(j, W)) for i, j in np.argwhere(mask).tolist())
+    got = sorted((_signed(i, out.shape[0]), _signed(j, out.shape[1])) for i, j in np.argwhere(out).tolist())
+    bad = got != want or out.shape[0] > H or out.shape[1] > W
+    return dict(violated=bad, observed=f"shape {out.shape}, pixels {got}" if bad else "ok", expected=f"pixels {want}")
+
+
+def fam_cropfn():
+    import itertools
+
+    for H, W in ((4, 4), (5, 4), (6, 7), (7, 7), (8, 8), (8, 5), (1, 3), (2, 2)):
+        exts = [e for e in ([0], [-1, 0, 1], [0, 1], [-1, 0], [-1, 0, 1, 2], [-2, -1, 0, 1], [1, 2], [-(H // 2)], list(range(-(H // 2), (H + 1) // 2)))]
+        for rows, cols in itertools.product(exts, [[0], [-1, 0, 1], [0, 1, 2], [-2, -1], list(range(-(W // 2), (W + 1) // 2))]):
+            pix = sorted({(r % H, c % W) for r in rows for c in cols if -(H // 2) <= r < (H + 1) // 2 and -(W // 2) <= c < (W + 1) // 2})
+            if not pix:
+                continue
+            for pad in (0, 1, 2):
+                yield dict(det=[H, W], pixels=[list(p) for p in pix], pad=pad)
 
 
 @_guard
@@ -1240,6 +1274,56 @@ def cr_ensures(s):
 C_CURROT = Contract(f"{DP}:HyperparameterState.current_rotation_angle", setup=cr_setup, requires=stash, ensures=cr_ensures, snapshot=getter_snapshot,
                     result=lambda ctx, s: cr_spec(s))
 
+
+# ------------------------------------------------------------------------------------------------
+# direct_ptycho_utils._crop_corner_centered_mask : integer index arithmetic (z3, all sizes / masks / paddings)
+# ------------------------------------------------------------------------------------------------
+DU = "quantem.diffractive_imaging.direct_ptycho_utils"
+
+
+def zsf(i, n):
+    """signed frequency index of corner-centred position i on an axis of length n (fftfreq convention)."""
+    return z3.If(i < (n + 1) / 2, i, i - n)
+
+
+def zidx(f, n):
+    return z3.If(f >= 0, f, f + n)
+
+
+def crop_setup(ctx):
+    H, W, px = ctx.fresh("H", "int"), ctx.fresh("W", "int"), ctx.fresh("padding", "int")
+    ctx.assume(AND(H.t >= 1, W.t >= 1, px.t >= 0))
+    mask = ctx.fresh_arr("mask", (H, W), "bool")
+    a, b = ctx.fresh("true_row", "int"), ctx.fresh("true_col", "int")
+    ctx.assume(AND(a.t >= 0, a.t < H.t, b.t >= 0, b.t < W.t, lift(mask.fn(a.t, b.t))))   # the mask is not empty
+    return NS(mask=mask, bf_mask_padding_px=px, H=H, W=W)
+
+
+def crop_ensures(s):
+    res, mask = s.result, s.mask
+    H, W = lift(s.H), lift(s.W)
+    if not (isinstance(res, V.SymArr) and res.ndim == 2):
+        return [("returns a 2-D mask", False)]
+    h, w = lift(res.shape[0]), lift(res.shape[1])
+    i, j = I("i"), I("j")
+    fi, fj = zsf(i, h), zsf(j, w)
+    Ii, Jj = zidx(fi, H), zidx(fj, W)
+    keep = implies(AND(i >= 0, i < h, j >= 0, j < w, lift(res.fn(i, j))),
+                   AND(Ii >= 0, Ii < H, Jj >= 0, Jj < W, zsf(Ii, H) == fi, zsf(Jj, W) == fj, lift(mask.fn(Ii, Jj))))
+    gi, gj = zsf(i, H), zsf(j, W)
+    ci, cj = zidx(gi, h), zidx(gj, w)
+    lose = implies(AND(i >= 0, i < H, j >= 0, j < W, lift(mask.fn(i, j))),
+                   AND(ci >= 0, ci < h, cj >= 0, cj < w, zsf(ci, h) == gi, zsf(cj, w) == gj, lift(res.fn(ci, cj))))
+    return [
+        ("shape: not larger than the input, not empty", AND(h >= 1, h <= H, w >= 1, w <= W)),
+        ("every pixel of the result is a mask pixel at the SAME signed detector frequency", forall([i, j], keep)),
+        ("every mask pixel is kept, at the SAME signed detector frequency", forall([i, j], lose, patterns=[mask.func(i, j)])),
+        ("the zero frequency stays at index [0, 0]", lift(res.fn(z3.IntVal(0), z3.IntVal(0))) == lift(mask.fn(z3.IntVal(0), z3.IntVal(0)))),
+    ]
+
+
+C_CROP = Contract(f"{DU}:_crop_corner_centered_mask", setup=crop_setup, ensures=crop_ensures)
+
 # ------------------------------------------------------------------------------------------------
 # reconstruct
 # ------------------------------------------------------------------------------------------------
@@ -1426,7 +1510,7 @@ C_RECONSTRUCT = Contract(
     max_paths=6000)
 
 # SimpleBatcher.__iter__ / __len__: the contracts of contracts/C09.py, re-verified in this check because reconstruct relies on the partition
-CONTRACTS = [C_KERNELNAME, C_PREPROCESS, C_BFCONTEXT, C_GAMMA, C_KERNEL, C_CURAB, C_CURROT, C_RECONSTRUCT, C09.C_ITER, C09.C_LEN]
+CONTRACTS = [C_KERNELNAME, C_PREPROCESS, C_BFCONTEXT, C_GAMMA, C_KERNEL, C_CURAB, C_CURROT, C_CROP, C_RECONSTRUCT, C09.C_ITER, C09.C_LEN]
 
 
 # ------------------------------------------------------------------------------------------------
@@ -1545,6 +1629,7 @@ for _c, _names in ((C_RECONSTRUCT, ["batch", "recombine", "parallax", "linear", 
                    (C_GAMMA, ["batch", "linear"]), (C_BFCONTEXT, ["context", "parallax"]), (C_PREPROCESS, ["parallax", "linear"])):
     _c.rt, _c.rt_family = rt_any, fam_any_cached(_names)
 C_KERNELNAME.rt, C_KERNELNAME.rt_family = rt_kernel_name, fam_kernel_name
+C_CROP.rt, C_CROP.rt_family, C_CROP.concretize = rt_cropfn, fam_cropfn, (lambda ev: None)
 for _c in (C_CURAB, C_CURROT):
     _c.rt, _c.rt_family, _c.concretize = rt_getter, fam_getter, (lambda ev: None)
 C_KERNELNAME.concretize = lambda ev: None
@@ -1588,6 +1673,8 @@ BOUNDED = [
     Bounded.from_rt("aliases give identical reconstructions", rt_aliases, fam_aliases, "2 geometries (all 5 in thorough)"),
     Bounded.from_rt("call histories: one-off overrides / other kernels / sub-masks leave no trace", rt_history, fam_history,
                     "3 geometries (5 in thorough) x 3 kernels (5) x 5 call sequences x optimised aberrations empty / present; later call == first == fresh object, bitwise"),
+    Bounded.from_rt("_crop_corner_centered_mask keeps the signed frequencies of all pixels (function level)", rt_cropfn, fam_cropfn,
+                    "8 detector shapes 1x3 .. 8x8, 45 mask extents each incl. Nyquist rows / full axes, padding 0..2"),
     Bounded.from_rt("HyperparameterState getters are pure", rt_getter, fam_getter, "initial/optimized empty or not x 4 overrides x 5 rotation settings, two calls each"),
     Bounded.from_rt("construction mask cropping (crop_bf_mask=True) keeps pixels at their detector frequencies", rt_crop, fam_crop,
                     "detectors 8x8, 7x7, 6x9; 7 mask extents (symmetric, heavier to either side, touching the array edge); padding 0..2", klass=crop_class),
